@@ -69,3 +69,24 @@ def grammar():
     cc = [ts[0].__name__ for ts in T.ControlConstructionCompositeBaseToken.get_token_sets()]
     return {'composite': comp, 'regexp': rx, 'lexer_order': [c.__name__ for c in Lexer.TOKENS],
             'control_constructions': cc}
+
+
+def call_target(target, params, argsets):
+    """Call the real function named by a contract target on encoded positional argument lists (self supplied)."""
+    from pv.nat import k1replay
+    fn, owner = k1replay.resolve(target)
+    kind = target.split(':')[0]
+    out = []
+    rt_cls = lib.get_class(kind) if kind in ('runtime', 'abstract') else lib.runtime_class()
+    enc, dec = lib.coder(rt_cls)
+    import inspect
+    for args in argsets:
+        a = [dec(x) for x in args]
+        if kind in ('runtime', 'abstract') and '#' not in target:
+            static = isinstance(inspect.getattr_static(owner, fn.__name__, None), staticmethod) if owner else False
+            inst = owner() if (owner is not None and owner is not rt_cls) else rt_cls()
+            r = lib.call_catch(fn, *a) if static else lib.call_catch(fn, inst, *a)
+        else:
+            r = lib.call_catch(fn, *a)
+        out.append(enc(r))
+    return {'results': out}
